@@ -9,6 +9,7 @@ from symmray.symmetries import calc_phase_permutation
 
 CONTRACTS = {
     "C03.koszul_is_inversion_parity": ("all parity vectors x all permutations", "exhaustive for length n <= 6 (quick) / n <= 7 (thorough)"),
+    "C03.koszul_negative_axes": ("an axis may be counted from the end (ax - n): same sign as the normalised permutation", "exhaustive over parity vectors, permutations and spellings for n <= 4 (quick) / n <= 5 (thorough)"),
     "C03.koszul_multiplicative": ("LK1: sign(p then q) = sign(p on par) * sign(q on permuted par)", "exhaustive for n <= 4 (quick) / n <= 5 (thorough)"),
 }
 
@@ -29,6 +30,9 @@ def gen_cases(tier, seed):
     for n in range(0, mmax + 1):
         for bits in range(2**n):
             yield {"contract": "C03.koszul_multiplicative", "n": n, "bits": bits}
+    for n in range(1, mmax + 1):
+        for bits in range(2**n):
+            yield {"contract": "C03.koszul_negative_axes", "n": n, "bits": bits}
 
 
 def check_case(d):
@@ -46,6 +50,17 @@ def check_case(d):
         rev = tuple(range(n - 1, -1, -1))
         if calc_phase_permutation(par, None) != inv_sign(par, rev) or calc_phase_permutation(par) != inv_sign(par, rev):
             fails.append(("C03.koszul_is_inversion_parity.reversal_shortcut", f"parities={par}: perm=None gives {calc_phase_permutation(par, None)}, explicit reversal {inv_sign(par, rev)}", {"perm_none": True}))
+    elif d["contract"] == "C03.koszul_negative_axes":
+        for perm in itertools.permutations(range(n)):
+            for mask in range(1, 2**n):
+                cnt += 1
+                spelled = tuple(ax - n if (mask >> i) & 1 else ax for i, ax in enumerate(perm))
+                got = calc_phase_permutation(par, spelled)
+                if got != inv_sign(par, perm):
+                    fails.append(("C03.koszul_negative_axes.value", f"parities={par} perm={spelled} (= {perm}): got {got}, inversion parity {inv_sign(par, perm)}", {"negative_axes": True}))
+                    break
+            if fails:
+                break
     else:
         perms = list(itertools.permutations(range(n)))
         for p in perms:
